@@ -45,6 +45,7 @@ func c07Sel(e ast.Expr) (string, []string) {
 }
 
 type c07Ctx struct {
+	rel   string // the file the function is in (helpers are looked up in its package)
 	where string
 	role  map[string]string // local name -> "new" | "old"
 	pkgAt []string          // fields between the role's root and the package ("pkg" in tarfs, nothing in install.go)
@@ -80,6 +81,9 @@ func (c *c07Ctx) cond(e ast.Expr) string {
 			return "(CNot " + c.cond(x.X) + ")"
 		}
 	case *ast.CallExpr:
+		if m := c.membership(x); m != "" {
+			return m
+		}
 		switch exprText(x.Fun) {
 		case "bytes.Equal":
 			if len(x.Args) == 2 && c.isSum(x.Args[0]) && c.isSum(x.Args[1]) {
@@ -138,6 +142,101 @@ func (c *c07Ctx) eq(a, b ast.Expr) string {
 		}
 	}
 	return ""
+}
+
+// A membership test "<r> lists <r'>.Name in Replaces" in its other two spellings (the loop is
+// rangeReplaces below): slices.Contains(<r>.Replaces, <r'>.Name), or a call of a helper that
+// is new relative to the recorded base and whose body is exactly the loop
+//     for _, v := range p.Replaces { if name == v { return true } }; return false
+func (c *c07Ctx) membership(call *ast.CallExpr) string {
+	var list, elem ast.Expr
+	switch {
+	case exprText(call.Fun) == "slices.Contains" && len(call.Args) == 2:
+		list, elem = call.Args[0], call.Args[1]
+	default:
+		id, ok := call.Fun.(*ast.Ident)
+		if !ok || c.rel == "" || len(call.Args) != 2 {
+			return ""
+		}
+		fd := packageInfo(c.rel).funcs[id.Name]
+		if fd == nil {
+			return ""
+		}
+		pi, ni, ok := c07MembershipHelper(fd)
+		if !ok {
+			return ""
+		}
+		list = &ast.SelectorExpr{X: call.Args[pi], Sel: ast.NewIdent("Replaces")}
+		elem = call.Args[ni]
+	}
+	r, f := c.pkgField(list)
+	r2, f2 := c.pkgField(elem)
+	if r == "" || f != "Replaces" || r2 == "" || f2 != "Name" || r2 == r {
+		return ""
+	}
+	if r == "old" {
+		return "COldDeclaresNew"
+	}
+	return "CNewDeclaresOld"
+}
+
+// is fd `func(p, name) bool { for _, v := range p.Replaces { if name == v { return true } }; return false }`?
+// returns the positions of the package and of the name among the parameters
+func c07MembershipHelper(fd *ast.FuncDecl) (pkgArg, nameArg int, ok bool) {
+	if fd == nil || fd.Body == nil || fd.Type.Params == nil || len(fd.Body.List) != 2 {
+		return 0, 0, false
+	}
+	var params []string
+	for _, f := range fd.Type.Params.List {
+		for _, n := range f.Names {
+			params = append(params, n.Name)
+		}
+	}
+	if len(params) != 2 {
+		return 0, 0, false
+	}
+	rs, ok1 := fd.Body.List[0].(*ast.RangeStmt)
+	ret, ok2 := fd.Body.List[1].(*ast.ReturnStmt)
+	if !ok1 || !ok2 || len(ret.Results) != 1 || exprText(ret.Results[0]) != "false" || len(rs.Body.List) != 1 {
+		return 0, 0, false
+	}
+	v, _ := rs.Value.(*ast.Ident)
+	root, path := c07Sel(rs.X)
+	if v == nil || len(path) != 1 || path[0] != "Replaces" {
+		return 0, 0, false
+	}
+	is, ok := rs.Body.List[0].(*ast.IfStmt)
+	if !ok || is.Init != nil || is.Else != nil || len(is.Body.List) != 1 {
+		return 0, 0, false
+	}
+	r2, ok := is.Body.List[0].(*ast.ReturnStmt)
+	if !ok || len(r2.Results) != 1 || exprText(r2.Results[0]) != "true" {
+		return 0, 0, false
+	}
+	be, ok := is.Cond.(*ast.BinaryExpr)
+	if !ok || be.Op != token.EQL {
+		return 0, 0, false
+	}
+	other := ""
+	switch {
+	case exprText(be.X) == v.Name:
+		other = exprText(be.Y)
+	case exprText(be.Y) == v.Name:
+		other = exprText(be.X)
+	}
+	pkgArg, nameArg = -1, -1
+	for i, p := range params {
+		if p == root {
+			pkgArg = i
+		}
+		if p == other {
+			nameArg = i
+		}
+	}
+	if pkgArg < 0 || nameArg < 0 || pkgArg == nameArg {
+		return 0, 0, false
+	}
+	return pkgArg, nameArg, true
 }
 
 // for _, v := range <r>.Replaces { if <r'>.Name == v { BODY } }: returns the
@@ -255,6 +354,13 @@ func c07Rows(c *c07Ctx, list []ast.Stmt, errVar string, isEnd func(ast.Stmt) (bo
 						c.vars[id.Name] = c.cond(be)
 						continue
 					}
+					// replaces := slices.Contains(new.Replaces, old.Name)   |   := helper(new, old.Name)
+					if call, ok := x.Rhs[0].(*ast.CallExpr); ok {
+						if m := c.membership(call); m != "" {
+							c.vars[id.Name] = m
+							continue
+						}
+					}
 				}
 			}
 			if len(x.Lhs) == 2 && len(x.Rhs) == 1 {
@@ -290,7 +396,7 @@ func genC07() {
 	g := newGen("C07Install", "From Apko Require Import Base.Prelude Base.C07Lib.\nOpen Scope string_scope. Open Scope list_scope.")
 	// ---- tarfs.writeHeader ---------------------------------------------------
 	if fd := findFunc("pkg/tarfs/fs.go", "memFS", "writeHeader"); fd != nil && fd.Type.Params != nil {
-		c := &c07Ctx{where: "pkg/tarfs/fs.go:writeHeader", role: map[string]string{}, pkgAt: []string{"pkg"}, vars: map[string]string{}, sumOf: map[string]bool{}}
+		c := &c07Ctx{rel: "pkg/tarfs/fs.go", where: "pkg/tarfs/fs.go:writeHeader", role: map[string]string{}, pkgAt: []string{"pkg"}, vars: map[string]string{}, sumOf: map[string]bool{}}
 		// the tar entry parameter is the package being installed
 		param := ""
 		for _, f := range fd.Type.Params.List {
@@ -426,7 +532,7 @@ func genC07() {
 	}
 	// ---- installRegularFile ----------------------------------------------------
 	if fd := findFunc("pkg/apk/apk/install.go", "APK", "installRegularFile"); fd != nil && fd.Type.Params != nil {
-		c := &c07Ctx{where: "pkg/apk/apk/install.go:installRegularFile", role: map[string]string{}, vars: map[string]string{}, sumOf: map[string]bool{}}
+		c := &c07Ctx{rel: "pkg/apk/apk/install.go", where: "pkg/apk/apk/install.go:installRegularFile", role: map[string]string{}, vars: map[string]string{}, sumOf: map[string]bool{}}
 		for _, f := range fd.Type.Params.List {
 			if exprText(f.Type) == "*Package" && len(f.Names) == 1 {
 				c.role[f.Names[0].Name] = "new"
